@@ -1242,7 +1242,9 @@ func (V *Verifier) staticWrites(ins ssa.Instruction, d map[string]bool) {
 				m := cc.Args[0].Type().Underlying().(*types.Map)
 				d[compMapDom(m)] = true
 				d[compMapLen(m)] = true
-			case "append", "copy":
+			case "copy":
+				// (append is modelled as returning a fresh backing array - standing assumption - so it writes
+				// no caller-visible element component)
 				if sl, ok := cc.Args[0].Type().Underlying().(*types.Slice); ok {
 					d[compElem(sl.Elem())] = true
 				}
